@@ -4,17 +4,25 @@ from props.c03 import TRUSTED, ASSUMPTIONS
 COQCHK = False
 NAMES = ['c16', 'c05']
 PROFILE = {'quick': 400, 'thorough': 5000, 'lengths': [14, 24, 40], 'finale': ['settle', 'sweep'], 'max_sessions': 8, 'weights': {'api': 22, 'send': 14, 'open': 10, 'open_rej': 6, 'open_ws': 5, 'disc': 8, 'post': 10, 'frame': 8, 'wsclose': 5, 'adv': 14, 'poll': 8, 'upgrade': 4, 'bad': 3}, 'monitor': True}
-RULE = ('seeded histories (opens with every connect outcome, polls, posts, upgrade handshakes, WebSocket frames and closes, application calls, refused requests, clock advances) over up to 4 sessions, each run on the threaded and the asyncio server and through the model; '
+RULE = ('plus an oracle-only suite with suspending disconnect handlers and cancelled requests (ended sessions leave the table); seeded histories (opens with every connect outcome, polls, posts, upgrade handshakes, WebSocket frames and closes, application calls, refused requests, clock advances) over up to 4 sessions, each run on the threaded and the asyncio server and through the model; '
         'long runs with up to 8 sessions, clients vanishing at every point, API calls with live / dead / unknown ids, monitoring on; finished by an advance of ping_interval + 7 x ping_timeout after which the table must hold exactly the live sessions. distinct = distinct (server, configuration, stimuli)')
 
 
 def run(ctx):
-    return hsuite.run(ctx, 'C16', NAMES, PROFILE, RULE)
+    res = hsuite.run(ctx, 'C16', NAMES, PROFILE, RULE)
+    # judged by the oracle alone (the model's handlers do not suspend): histories with a disconnect handler that waits in virtual time, requests
+    # cancelled while it waits - a session that has had its disconnect event must leave the table once the monitor has swept
+    from props import c05
+    c05.run_suspended(ctx, res, only={'ended-session-reaped'}, n_quick=80, n_thorough=2500)
+    return res
 
 
 def search(ctx, res):
-    return hsuite.run(ctx, 'C16', NAMES, PROFILE, RULE).violations
+    return run(ctx).violations
 
 
 def replay(payload):
+    if payload['case'].get('suspend_ticks'):
+        from props import c05
+        return c05.replay(payload)
     return hsuite.replay_case(payload['case'], NAMES, PROFILE['finale'])
